@@ -152,6 +152,49 @@ pub fn gen_c08(rng: &mut Rng, thorough: bool) -> Vec<Tagged> {
         spec.layers.push(LayerSpec::One(l));
         out.push(("first-layer-reject".into(), Case::Net(spec, NetCmd::Shapes)));
     }
+    // (e) flat -> MULTI-channel spatial transitions (only reachable through reshape: a flattened
+    //     multi-filter output looped back into its spatial layer, a skip from a flat tensor into a
+    //     multi-channel input, and the tensor-level reshape / get_triple themselves); distinct values
+    for (c, h, w) in [(2usize, 2usize, 2usize), (2, 2, 3), (3, 1, 2), (2, 3, 2), (3, 2, 2)] {
+        let n = c * h * w;
+        let v = rng.distinct(n);
+        out.push(("flat-to-multichannel-reshape".into(), Case::Reshape(t1(v.clone()), Sh::Sp(c, h, w).to_shape())));
+        out.push(("flat-to-multichannel-get-triple".into(), Case::GetTriple(t1(v.clone()), Sh::Sp(c, h, w).to_shape())));
+        // conv with c identity 1x1 filters followed by a dense layer (its output is flattened), looped back once
+        let mut spec = NetSpec::new(Sh::Sp(c, h, w).to_shape());
+        let conv = Simple::Conv { filters: c, kernel: (1, 1), stride: (1, 1), padding: (0, 0), dilation: (1, 1), act: Act::Linear, dropout: None };
+        let dense = Simple::Dense { out: 2, act: Act::Linear, bias: false, dropout: None };
+        let mut kernels = vec![];
+        for f in 0..c {
+            let mut k = vec![0.0f32; c];
+            k[f] = 1.0;
+            kernels.push(t3(c, 1, 1, &k));
+        }
+        spec.layers.push(LayerSpec::One(conv));
+        spec.layers.push(LayerSpec::One(dense.clone()));
+        spec.weights = Some(vec![LW::One(W::Kernels(kernels.clone())), LW::One(rand_w(rng, &dense, Sh::Flat(n), 1))]);
+        spec.loops = vec![(0, 0, 1, false)];
+        spec.loopacc = crate::spec::Acc::Overwrite;
+        out.push(("flat-to-multichannel-loopback".into(), Case::Net(spec.clone(), NetCmd::Forward(tensor_of_shape(&Sh::Sp(c, h, w).to_shape(), &v)))));
+        // dense(n) -> dense(h*w') ... a skip from the flat network input into a multi-channel conv input
+        let r = isqrt(h * w);
+        if r * r == h * w {
+            let mut sp = NetSpec::new(Sh::Flat(c * r * r).to_shape());
+            let d0 = Simple::Dense { out: r * r, act: Act::Linear, bias: false, dropout: None };
+            let c1 = Simple::Conv { filters: c, kernel: (1, 1), stride: (1, 1), padding: (0, 0), dilation: (1, 1), act: Act::Linear, dropout: None };
+            let c2 = Simple::Conv { filters: 1, kernel: (1, 1), stride: (1, 1), padding: (0, 0), dilation: (1, 1), act: Act::Linear, dropout: None };
+            let w0 = rand_w(rng, &d0, Sh::Flat(c * r * r), 1);
+            let k1: Vec<Tensor> = (0..c).map(|_| t3(1, 1, 1, &[1.0])).collect();
+            let k2 = vec![t3(c, 1, 1, &rng.distinct(c))];
+            sp.layers.push(LayerSpec::One(d0));
+            sp.layers.push(LayerSpec::One(c1));
+            sp.layers.push(LayerSpec::One(c2));
+            sp.weights = Some(vec![LW::One(w0), LW::One(W::Kernels(k1)), LW::One(W::Kernels(k2))]);
+            sp.connect = vec![(0, 2)];
+            sp.skipacc = crate::spec::Acc::Overwrite;
+            out.push(("flat-to-multichannel-skip".into(), Case::Net(sp, NetCmd::Forward(t1(rng.distinct(c * r * r))))));
+        }
+    }
     out
 }
 
